@@ -286,10 +286,13 @@ func (da *doubleArray) build(srcs []*record, idx, depth int, usedBase map[int]st
 				return err
 			}
 		case WildcardCharacter:
-			r := records[0]
-			name := r.Key[depth+1 : len(r.Key)-1]
-			r.paramNames = append(r.paramNames, name)
-			r.Key = ""
+			// every record of the group ends here: patterns that differ only in the wildcard's name
+			// are resolved like those that differ only in a parameter's name (the last in key order is served)
+			for _, r := range records {
+				name := r.Key[depth+1 : len(r.Key)-1]
+				r.paramNames = append(r.paramNames, name)
+				r.Key = ""
+			}
 			da.bc[idx].SetWildcardParam()
 			if err := da.build(records, nextIndex(base, sib.c), 0, usedBase); err != nil {
 				return err
